@@ -588,7 +588,39 @@ func (p *Partition) MeasurementSeriesIDIterator(name []byte) (tsdb.SeriesIDItera
 	if err != nil {
 		return nil, err
 	}
-	return newFileSetSeriesIDIterator(fs, fs.MeasurementSeriesIDIterator(name)), nil
+	return newFileSetSeriesIDIterator(fs, p.existingSeriesIDIterator(fs.MeasurementSeriesIDIterator(name))), nil
+}
+
+// existingSeriesIDIterator restricts itr to the series that currently exist in the
+// partition. The per-measurement and per-tag-value series lists of older index files
+// are not rewritten when a series is dropped, and the series file only hides a dropped
+// series once no shard holds it any more, so without this a series dropped from this
+// shard alone would still be returned.
+func (p *Partition) existingSeriesIDIterator(itr tsdb.SeriesIDIterator) tsdb.SeriesIDIterator {
+	if itr == nil {
+		return nil
+	}
+	if ssitr, ok := itr.(tsdb.SeriesIDSetIterator); ok {
+		return tsdb.NewSeriesIDSetIteratorWithCloser(ssitr.SeriesIDSet().And(p.seriesIDSet), ssitr)
+	}
+	return &existingSeriesIDIterator{itr: itr, ss: p.seriesIDSet}
+}
+
+// existingSeriesIDIterator skips the series ids that are not in ss.
+type existingSeriesIDIterator struct {
+	itr tsdb.SeriesIDIterator
+	ss  *tsdb.SeriesIDSet
+}
+
+func (itr *existingSeriesIDIterator) Close() error { return itr.itr.Close() }
+
+func (itr *existingSeriesIDIterator) Next() (tsdb.SeriesIDElem, error) {
+	for {
+		e, err := itr.itr.Next()
+		if err != nil || e.SeriesID == 0 || itr.ss.Contains(e.SeriesID) {
+			return e, err
+		}
+	}
 }
 
 // DropMeasurement deletes a measurement from the index. DropMeasurement does
@@ -813,7 +845,7 @@ func (p *Partition) TagKeySeriesIDIterator(name, key []byte) (tsdb.SeriesIDItera
 		fs.Release()
 		return nil, nil
 	}
-	return newFileSetSeriesIDIterator(fs, itr), nil
+	return newFileSetSeriesIDIterator(fs, p.existingSeriesIDIterator(itr)), nil
 }
 
 // TagValueSeriesIDIterator returns a series iterator for a single key value.
@@ -831,7 +863,7 @@ func (p *Partition) TagValueSeriesIDIterator(name, key, value []byte) (tsdb.Seri
 		fs.Release()
 		return nil, nil
 	}
-	return newFileSetSeriesIDIterator(fs, itr), nil
+	return newFileSetSeriesIDIterator(fs, p.existingSeriesIDIterator(itr)), nil
 }
 
 // MeasurementTagKeysByExpr extracts the tag keys wanted by the expression.
